@@ -6,8 +6,12 @@ import (
 	"fmt"
 	"math/rand"
 	"os"
+	"path/filepath"
+	"regexp"
 	"sort"
+	"strconv"
 	"strings"
+	"time"
 
 	"github.com/zmap/zlint/v3/lint"
 	"verif/harness/internal/corpus"
@@ -360,6 +364,33 @@ func cmdMutate(args []string) {
 			}
 		}
 	}
+	// extensions a lint may look for, with values it cannot decode: every object identifier written out in v3/util (the
+	// identifiers the lints compare extension ids with) is injected as an extension - critical and not - into a subscriber
+	// certificate, a CA certificate and a CRL, carrying a handful of values that are not what the extension's syntax asks for.
+	// A lint that decodes "its" extension meets these whether or not its own test objects carry the extension.
+	if only == "" || strings.HasPrefix(only, "injected:") {
+		for _, t := range injectedExtensions(c) {
+			if only == "" || t.ID == only {
+				plain = append(plain, t)
+			}
+		}
+	}
+	// the result sets of these inputs (and of every 25th mutant) are recorded too: C01 judges them like those of the corpus
+	wRun := ev.Create(out("run.ndjson"))
+	index := map[string]map[string]int{}
+	for _, k := range []string{"cert", "crl", "ocsp"} {
+		ls := lintsOf(g, k)
+		wRun.Emit(metaEvent(k, ls))
+		index[k] = map[string]int{}
+		for i, l := range ls {
+			index[k][l.Name] = i + 1
+		}
+	}
+	for _, mt := range plain {
+		e, _ := runDoneEvent(mt, "full", g, index[mt.Kind])
+		wRun.Emit(e)
+	}
+	wRun.Close()
 	results := make([]result, len(jobs)+1)
 	replayPath := os.Getenv("VERIF_MUTATION") // "path|op" to replay one mutation only
 	parallel(len(jobs), func(ji int) {
@@ -508,4 +539,102 @@ func cmdMutate(args []string) {
 	w.Close()
 	ev.WriteJSON(out("summary.json"), ev.M{"events": n, "carriers": len(jobs), "mutants": mutants, "parsed": parsed, "parser_panics": ppanics, "triples": len(triples),
 		"classes": len(agg), "sample": ev.M{"op": "append-c2", "class": "utf8", "note": "a dangling UTF-8 lead byte appended to a UTF8String"}})
+}
+
+var oidLiteral = regexp.MustCompile(`asn1\.ObjectIdentifier\{([0-9, ]+)\}`)
+
+// injectedExtensions: see cmdMutate.
+func injectedExtensions(c *corpus.Corpus) []*Target {
+	seen := map[string]bool{}
+	var oids [][]int
+	files, _ := filepath.Glob(filepath.Join(corpus.Root(), "v3", "util", "*.go"))
+	for _, f := range files {
+		if strings.HasSuffix(f, "_test.go") {
+			continue
+		}
+		b, err := os.ReadFile(f)
+		if err != nil {
+			continue
+		}
+		for _, m := range oidLiteral.FindAllStringSubmatch(string(b), -1) {
+			var arcs []int
+			ok := true
+			for _, a := range strings.Split(m[1], ",") {
+				n, err := strconv.Atoi(strings.TrimSpace(a))
+				if err != nil {
+					ok = false
+					break
+				}
+				arcs = append(arcs, n)
+			}
+			if ok && len(arcs) >= 3 && !seen[m[1]] {
+				seen[m[1]] = true
+				oids = append(oids, arcs)
+			}
+		}
+	}
+	values := [][]byte{{}, {0x05, 0x00}, {0x04, 0x01, 0x00}, {0x30, 0x00}, {0x30, 0x03, 0x81, 0x01}, {0x30, 0x03, 0x01, 0x01, 0xff, 0x05, 0x00}, {0x01, 0x02, 0x00, 0x00},
+		{0x0c, 0x02, 0xc3, 0x28}, {0x30, 0x06, 0x30, 0x04, 0x06, 0x02, 0x2a, 0x03}, {0x03, 0x01, 0x00}, {0x02, 0x01, 0xff}, {0x30, 0x80}}
+	var out []*Target
+	var leaf, ca *corpus.Obj
+	for _, o := range c.Certs {
+		if strings.HasPrefix(o.ID, "synth:") {
+			continue
+		}
+		if leaf == nil && !o.Cert.IsCA && len(o.Cert.DNSNames) > 0 && len(o.Cert.PolicyIdentifiers) > 0 {
+			leaf = o
+		}
+		if ca == nil && o.Cert.IsCA && !bytes.Equal(o.Cert.RawIssuer, o.Cert.RawSubject) {
+			ca = o
+		}
+	}
+	late := time.Date(2024, 3, 1, 0, 0, 0, 0, time.UTC)
+	for _, base := range []*corpus.Obj{leaf, ca} {
+		if base == nil {
+			continue
+		}
+		fc, err := forge.ParseCert(base.DER)
+		if err != nil {
+			continue
+		}
+		fc.SetNotBefore(late)
+		fc.SetNotAfter(late.AddDate(0, 0, 90))
+		for oi, arcs := range oids {
+			for vi, val := range values {
+				v := fc.Clone()
+				v.SetExt(forge.OIDString(forge.OID(arcs...).Content), forge.MakeExt(forge.OID(arcs...), (oi+vi)%2 == 0, val))
+				if cert, ok, _ := corpus.ParseCert(v.Bytes()); ok {
+					out = append(out, &Target{Kind: "cert", ID: fmt.Sprintf("injected:%s:%v:%d", base.ID, arcs, vi), DER: v.Bytes(), Cert: cert})
+				}
+			}
+		}
+	}
+	if len(c.CRLs) > 0 {
+		root, err := forge.Parse(c.CRLs[0].DER)
+		if err == nil && len(root.Children) == 3 {
+			for oi, arcs := range oids {
+				for vi, val := range values {
+					m := root.Clone()
+					tbs := m.Children[0]
+					ext := forge.MakeExt(forge.OID(arcs...), (oi+vi)%2 == 0, val)
+					var wrap *forge.Node
+					for _, ch := range tbs.Children {
+						if ch.Tag() == 0xa0 && ch.Constructed() && len(ch.Children) == 1 {
+							wrap = ch
+						}
+					}
+					if wrap != nil {
+						wrap.Children[0].Children = append(wrap.Children[0].Children, ext)
+					} else {
+						tbs.Children = append(tbs.Children, forge.Cons(0x80, forge.Cons(0x10, ext)))
+					}
+					der := m.Bytes()
+					if crl, ok, _ := corpus.ParseCRL(der); ok {
+						out = append(out, &Target{Kind: "crl", ID: fmt.Sprintf("injected:%s:%v:%d", c.CRLs[0].ID, arcs, vi), DER: der, CRL: crl})
+					}
+				}
+			}
+		}
+	}
+	return out
 }
